@@ -170,7 +170,35 @@ def expected_meas(probe, outputs, ob, fi):
     return exp
 
 
+def flush_oracle(ck, inp, probe, outputs, ob, profile_files):
+    """"persist + flush per data point": while the n-th process of the session runs, every data point
+    delivered by the processes before it is on disk, in whole lines"""
+    disk = getattr(ob, 'disk_at_start', None)
+    if not disk or len(disk) != len(ob.starts):
+        return
+    for fi, fname in enumerate(probe.files):
+        if fi in profile_files:
+            continue
+        base = len(dp_rows(ob.before[fi], False))
+        expected = base
+        for n, s in enumerate(ob.starts):
+            text = disk[n][fi]
+            rows = dp_rows(text, False)
+            torn = text != '' and not text.endswith('\n')
+            if torn or len(rows) != expected or not ob.files[fi].startswith(text):
+                ck.oracle_fail('flushed_before_next_start', inp,
+                               {'file': fname, 'start_number': n + 1, 'rows_on_disk': len(rows),
+                                'rows_persisted': expected, 'ends_in_whole_line': not torn},
+                               {'kind': 'torn-line' if torn else 'behind' if len(rows) < expected else 'other'})
+                return
+            if s[0] == 'r' and fi in probe.runs[s[1]]['files'] and not probe.runs[s[1]]['profile']:
+                o = outputs[s[1]][s[2] - 1] if s[2] - 1 < len(outputs[s[1]]) else None
+                if o is not None:
+                    expected += sum(len(ms) for ms in o)
+
+
 def oracle(ck, inp, probe, outputs, ob, profile_files):
+    flush_oracle(ck, inp, probe, outputs, ob, profile_files)
     cfg = inp['cfg']
     for fi, fname in enumerate(probe.files):
         before, after = ob.before[fi], ob.files[fi]
@@ -283,15 +311,44 @@ def check_urls(ck, n):
         {'scheme': 'https', 'host': 'h', 'rest': '', 'user': '', 'password': 'TopSecret9'},
         {'scheme': 'https', 'host': 'h', 'rest': '/x', 'user': 'u', 'password': ''},
     ]
+    cases += [
+        # passwords with characters that delimit parts of a URL: userinfo ends at the LAST '@',
+        # the user name at the FIRST ':' (urlparse and git agree)
+        {'scheme': 'https', 'host': 'git.example.org', 'rest': '/t/p.git', 'user': 'builder', 'password': 'Zk3cr3t@Hunter2Qx', 'port': '8443'},
+        {'scheme': 'https', 'host': 'git.example.org', 'rest': '/t/p.git', 'user': 'builder', 'password': 'Zk3cr3t@Hunter2Qx'},
+        {'scheme': 'https', 'host': 'git.example.org', 'rest': '/t/p.git', 'user': 'builder', 'password': 'Zk3cr3t:Hunter2Qx@Wv9'},
+        {'scheme': 'https', 'host': 'git.example.org', 'rest': '/t/p.git', 'user': 'who@corp', 'password': 'Zk3cr3t'},
+        {'scheme': 'https', 'host': 'git.example.org', 'rest': '/t/p.git', 'user': 'builder', 'password': 'Zk3%40cr3t%2Fx'},
+        {'scheme': 'ssh', 'host': '[2001:db8::1]', 'rest': '/r.git', 'user': 'git', 'password': 'Zk3cr3t', 'port': '2222'},
+        {'scheme': 'ssh', 'host': '[2001:DB8::1]', 'rest': '/r.git', 'user': 'git'},
+        {'scheme': 'https', 'host': '[::1]', 'rest': '/r.git', 'port': '8080'},
+        {'scheme': 'https', 'host': 'h', 'rest': '/x', 'user': 'u', 'password': '', 'port': '81'},
+        {'scheme': 'https', 'host': 'h', 'rest': '/x', 'user': 'u', 'port': '81'},
+    ]
+    tokens = ['Zk3cr3t', 'Hunter2Qx', 'Wv9pL', 'Tq7Secret', 'xYz-123']
     for _ in range(n):
         c = {'scheme': rng.choice(['https', 'http', 'ssh', 'git']),
-             'host': rng.choice(['example.com', 'git.example.org', 'localhost', 'Host.Example', '10.0.0.7']),
-             'rest': rng.choice(['', '/', '/a/b.git', '/u/r?x=1', '/p#frag'])}
-        if rng.random() < 0.7:
-            c['user'] = rng.choice(['me', 'git', 'a.b', 'user-1', ''])
-            if rng.random() < 0.7:
-                c['password'] = rng.choice(['s3cr3t-Pw', 'TopSecret9', 'p%40ss', 'xYz.123', ''])
-        if rng.random() < 0.4:
+             'host': rng.choice(['example.com', 'git.example.org', 'localhost', 'Host.Example', '10.0.0.7',
+                                 '[2001:db8::7]', '[::1]']),
+             'rest': rng.choice(['', '/', '/a/b.git', '/u/r?x=1', '/p#frag', '/with@at/r.git'])}
+        if rng.random() < 0.75:
+            c['user'] = rng.choice(['me', 'git', 'a.b', 'user-1', '', 'who@corp'])
+            if rng.random() < 0.75:
+                k = rng.random()
+                if k < 0.1:
+                    c['password'] = ''
+                else:
+                    parts = rng.sample(tokens, rng.randint(1, 3))
+                    seps = [rng.choice(['@', ':', '%40', '%2F', '.', '@@', ':@']) for _ in parts[1:]]
+                    pw = parts[0]
+                    for sp, pt in zip(seps, parts[1:]):
+                        pw += sp + pt
+                    if rng.random() < 0.1:
+                        pw = rng.choice(['@', ':']) + pw
+                    if rng.random() < 0.1:
+                        pw += rng.choice(['@', ':'])
+                    c['password'] = pw
+        if rng.random() < 0.45:
             c['port'] = str(rng.choice([22, 80, 443, 8080, 65535]))
         cases.append(c)
     ops = [dict(c, op='c06.url') for c in cases]
@@ -322,6 +379,10 @@ def check_urls(ck, n):
                 status = 'ok'
             except Exception as e:  # noqa
                 recorded, status = None, 'crash:' + type(e).__name__
+            if c.get('password') and any(ch in c['password'] for ch in '@:'):
+                ck.count('url:pw-with-delimiter')
+            if c['host'].startswith('['):
+                ck.count('url:ipv6')
             kind = ('pw' if c.get('password') else 'emptypw' if 'password' in c else 'user' if 'user' in c else 'plain') \
                 + ('+port' if 'port' in c else '')
             ck.count('url:' + kind)
@@ -335,15 +396,141 @@ def check_urls(ck, n):
                 ck.oracle_fail('password_removed', {'url': url, 'parts': c}, {'status': status},
                                {'kind': 'exception'})
             elif c.get('password'):
-                if c['password'] in recorded:
-                    ck.oracle_fail('password_removed', {'url': url, 'parts': c}, {'recorded': recorded},
-                                   {'kind': 'password-kept'})
+                import re as _re
+                frags = [f for f in _re.split(r'[@:]|%40|%2F', c['password']) if len(f) >= 3]
+                leaked = [f for f in frags if f in recorded]
+                if c['password'] in recorded or leaked:
+                    ck.oracle_fail('password_removed', {'url': url, 'parts': c},
+                                   {'recorded': recorded, 'leaked_fragments': leaked},
+                                   {'kind': 'password-kept' if c['password'] in recorded else 'password-partly-kept'})
             elif recorded != url:
                 ck.oracle_fail('password_removed', {'url': url, 'parts': c}, {'recorded': recorded},
                                {'kind': 'changed-without-password'})
     finally:
         env._exec, env._source = saved
         drive._env_ready = False
+
+
+# ---------------------------------------------------------------- parallel scheduler
+def parallel_slice(ck, n):
+    """>= 2 non-exclusive runs sharing a data file under the ParallelScheduler (cpu_count 5 -> 2 worker
+    threads, 8 -> 3).  The interleaving at the lazy file open is forced: `open` inside
+    rebench.persistence is shadowed so that a thread that has just opened a data file for appending
+    waits (bounded) for a second appender of the same file.  With `persist_data_point` holding its lock
+    around the lazy open no second appender can arrive (the wait times out); if the open escapes the lock,
+    two threads write the session block (and, on a new file, the header) twice.
+    Oracle: header once per file, exactly one session block per recording session per file, the
+    measurement rows appended equal (as a multiset; per run in order) those of the delivered invocations."""
+    import threading
+    import collections
+    from rebench import persistence as pers_mod
+    rng = ck.rng
+    for idx in range(n):
+        n_bench = rng.randint(2, 4)
+        n_inv = rng.randint(1, 2)
+        shared = rng.random() < 0.7
+        exps = {'X0': {'suites': ['S0'], 'executions': ['E0']}}
+        if not shared:
+            exps['X1'] = {'suites': ['S0'], 'executions': ['E0'], 'data_file': 'second.data'}
+        cfg = {'default_experiment': 'all', 'default_data_file': 'par.data', 'runs': {'invocations': n_inv},
+               'benchmark_suites': {'S0': {'gauge_adapter': 'RebenchLog',
+                                           'command': '%(benchmark)s c%(cores)s i%(input)s v%(variable)s t%(tag)s w%(warmup)s n%(invocation)s',
+                                           'benchmarks': ['P%d' % b for b in range(n_bench)]}},
+               'executors': {'E0': {'path': '.', 'executable': 'exe0', 'execute_exclusively': False}},
+               'experiments': exps}
+        wd = os.path.join(ck.scratch, 'par%d' % idx)
+        os.makedirs(wd)
+        drive.write_config(wd, cfg)
+        probe = dp.Probe(wd, cfg, [])
+        import random as _random
+        outputs = dp.gen_outputs(_random.Random(rng.randint(0, 10 ** 9)), probe, fail_rate=0.0)
+        cpu = rng.choice([5, 8])
+        real_open = open
+        state = {'lock': threading.Lock(), 'appenders': collections.Counter(), 'events': {}, 'timeouts': 0}
+
+        def hooked_open(file, mode='r', *a, **kw):
+            f = real_open(file, mode, *a, **kw)
+            if mode.startswith('a'):
+                key = os.path.abspath(file)
+                with state['lock']:
+                    state['appenders'][key] += 1
+                    ev = state['events'].setdefault(key, threading.Event())
+                    if state['appenders'][key] >= 2:
+                        ev.set()
+                if not ev.wait(0.25):
+                    state['timeouts'] += 1
+            return f
+        prev = [''] * len(probe.files)
+        sessions = []
+        pers_mod.open = hooked_open
+        try:
+            for si in range(2):
+                state['appenders'].clear()
+                state['events'].clear()
+                script = dp.make_script(probe, outputs, [])
+                conf = os.path.join(wd, 'test.conf')
+                res = drive.run_session(wd, [conf], script, cpu_count=cpu)
+                dp.release_hanging()
+                files = [dp.read_text(os.path.join(wd, f)) for f in probe.files]
+                sessions.append((res, prev, files))
+                prev = files
+                ck.impl_traces += 1
+        finally:
+            del pers_mod.open
+        inp = {'parallel': True, 'cfg': cfg, 'cpu_count': cpu, 'outputs': outputs}
+        ck.count('parallel:threads=%d' % int(cpu / 2.5))
+        ck.count('parallel:%s' % ('one-file' if shared else 'two-files'))
+        ck.case(nontrivial_key=('par', idx, n_bench, n_inv, cpu), sample={'runs': n_bench, 'invocations': n_inv,
+                                                                           'cpu_count': cpu, 'files': probe.files})
+        for si, (res, before, after) in enumerate(sessions):
+            sinp = dict(inp, session=si)
+            if res.status() not in ('ok', 'failed'):
+                ck.oracle_fail('no_crash', sinp, {'status': res.status(), 'crash': res.crash}, {'scheduler': 'parallel'})
+                continue
+            starts = [dp.classify_start(probe, s) for s in res.starts]
+            for fi, fname in enumerate(probe.files):
+                sig = {'scheduler': 'parallel', 'file_kind': 'benchmark'}
+                if not after[fi].startswith(before[fi]):
+                    ck.oracle_fail('append_only', sinp, {'file': fname}, sig)
+                    continue
+                new = after[fi][len(before[fi]):]
+                blocks = sum(1 for l in new.split('\n') if l.startswith('#!'))
+                headers = sum(1 for l in after[fi].split('\n') if l == dp.HEADER)
+                want_rows = []
+                for s in starts:
+                    if s[0] == 'r' and fi in probe.runs[s[1]]['files']:
+                        for j, ms in enumerate(outputs[s[1]][s[2] - 1]):
+                            for (crit, unit, v) in ms:
+                                want_rows.append([str(s[2]), str(j + 1), fmt6_independent(v), unit, crit]
+                                                 + probe.runs[s[1]]['cols'])
+                got_rows = [r[:-1] for r in dp_rows(new, False)]
+                if new and blocks != 1:
+                    ck.oracle_fail('session_block_once', sinp, {'file': fname, 'blocks': blocks}, sig)
+                if after[fi] and headers != 1:
+                    ck.oracle_fail('header_once', sinp, {'file': fname, 'headers': headers}, sig)
+                if sorted(got_rows) != sorted(want_rows):
+                    ck.oracle_fail('appended_exactly', sinp, {'file': fname, 'got_n': len(got_rows),
+                                                              'expected_n': len(want_rows)}, dict(sig, kind='multiset'))
+                else:
+                    for k in set(tuple(r[5:]) for r in got_rows):
+                        if [r for r in got_rows if tuple(r[5:]) == k] != [r for r in want_rows if tuple(r[5:]) == k]:
+                            ck.oracle_fail('appended_exactly', sinp, {'file': fname, 'run': list(k)},
+                                           dict(sig, kind='per-run-order'))
+                # model side: what a sequential history of whole persists (any order) appends, by kind
+                lines, _m = dp.canon_lines(new, probe)
+                kinds = collections.Counter(l[0] for l in lines)
+                n_runs_here = len(set(s[1] for s in starts if s[0] == 'r' and fi in probe.runs[s[1]]['files']))
+                model_kinds = {'S': 4 if got_rows else 0, 'H': 1 if (got_rows and not before[fi]) else 0,
+                               'M': len(want_rows)}
+                impl_kinds = {'S': kinds.get('S', 0), 'H': kinds.get('H', 0), 'M': kinds.get('M', 0)}
+                if si == 0:
+                    model_kinds['R'] = n_runs_here
+                    impl_kinds['R'] = kinds.get('R', 0)
+                if impl_kinds != model_kinds:
+                    ck.disagree('c06.parallel: lines appended under the ParallelScheduler vs any sequential history '
+                                'of whole persists', sinp, impl_kinds, model_kinds,
+                                ['RB.DataFile.c06_locked_persists_are_a_session', 'RB.DataFile.c06_header_once'])
+
 
 
 def load_corpus(ck):
@@ -385,10 +572,15 @@ def run(ck):
     if items:
         compare_and_judge(ck, items)
     check_urls(ck, 150 if quick else 3000)
+    parallel_slice(ck, 8 if quick else 120)
 
 
 def replay(ck, data):
     inp = data['input']
+    if inp.get('parallel'):
+        ck.notes.append('parallel replays re-run the slice from the seed')
+        parallel_slice(ck, 8)
+        return
     if 'url' in inp:
         ck.notes.append('URL replays are covered by the fixed URL table of every run')
         check_urls(ck, 0)
